@@ -96,6 +96,27 @@ def build(scratch, seed=None):
             failed[cur] = []
         elif cur and line.strip():
             failed[cur].append(line.strip())
+    # packages whose directory names differ only in case stop the whole build: set them aside (they do not compile as generated)
+    # and build the rest
+    collide = set()
+    for m in re.finditer(r'case-insensitive import collision: "([^"]+)" and "([^"]+)"', p.stdout or ""):
+        collide.update(m.groups())
+    if collide:
+        pkgs = [e["go_pkg"] for e in entries]
+        lower = {c.lower() for c in collide}
+        rest = sorted({g for g in pkgs if g.lower() not in lower})
+        for g in pkgs:
+            if g.lower() in lower:
+                failed[g] = ["case-insensitive import collision: generated files were written to a directory whose name differs only in case"]
+        p = V.run(["go", "build"] + rest, cwd=d, timeout=1800, check=False)
+        cur = None
+        for line in (p.stdout or "").splitlines():
+            m = re.match(r"# (verif/corp/\S+)", line)
+            if m:
+                cur = m.group(1)
+                failed[cur] = []
+            elif cur and line.strip():
+                failed[cur].append(line.strip())
     if p.returncode != 0 and not failed:
         raise V.Inconclusive("go build of the corpus failed:\n" + (p.stdout or "")[-2000:])
     for e in entries:
